@@ -109,6 +109,9 @@ def truthy(v):
     if isinstance(v, (VObj, VFunc, VBuiltin, VClass, VModule, VExc, VRegex)):
         return T()
     if isinstance(v, VOpaque):
+        if v.kind == "any":
+            # an arbitrary Python object: it may well be falsy (0, "", [], an object with __bool__)
+            return z3.Function("py_truthy_any", v.z.sort(), z3.BoolSort())(v.z)
         return T()
     raise Unsupported(f"truthy({v!r})")
 
